@@ -17,12 +17,17 @@
      AS id k cfgs hex obs       k configurations (ot/ch/f/e;...) encoded into ONE writer (hex), then k calls of
                                 DecodeAudioSpecificConfig on ONE reader: result@bytes-left;...   (cfgs "-": raw bytes)
      HS id k items hex obs      the same for ADTS headers (junk:fields;...)
+     DE id hex obs              mp4.DecodeESDescriptor on a FixedSliceReader over the bytes: the decoded value, GetPos(),
+                                AccError() != nil, the value re-encoded
+     DG id maxNr hex obs        mp4.DecodeDescriptor(sr, maxNr) likewise
+     EB id hex obs obsSR        mp4.DecodeBox / mp4.DecodeBoxSR on the bytes of an esds box
    ED cases outside the modelled decoder path are answered "SKIP <id>" *)
 open Vx
 open Base
 open C18Model
 open C18EntryModel
 open C18HistModel
+open C18DescModel
 
 let ni s = n_of_int (int_of_string s)
 
@@ -48,6 +53,29 @@ let adts_obs (r : (adts * BinNums.coq_Z) res) : string =
 (* the hash both sides compute over the complete payload-length range *)
 let hmod = 2147483647
 let hstep h b = (h * 1000003 + b + 1) mod hmod
+
+let rec desc_str (d : desc) : string =
+  match d with
+  | DDcd (sfs, ot, st, buf, maxbr, avg, cs, u) ->
+    Printf.sprintf "4(%d,%d,%d,%d,%d,%d,%s,%s)" (int_of_n sfs) (int_of_n ot) (int_of_n st) (int_of_n buf)
+      (int_of_n maxbr) (int_of_n avg) (descs_str cs) (hex_of_bytes u)
+  | DDsi (sfs, dc) -> Printf.sprintf "5(%d,%s)" (int_of_n sfs) (hex_of_bytes dc)
+  | DSlc (sfs, cv, more) -> Printf.sprintf "6(%d,%d,%s)" (int_of_n sfs) (int_of_n cv) (hex_of_bytes more)
+  | DRaw (tag, sfs, data) -> Printf.sprintf "R(%d,%d,%s)" (int_of_n tag) (int_of_n sfs) (hex_of_bytes data)
+and descs_str (l : desc list) : string = "[" ^ S.concat "+" (L.map desc_str l) ^ "]"
+
+let es_str (e : esd) : string =
+  Printf.sprintf "E(%d,%d,%d,%d,%s,%d,%s,%s,%s)" (int_of_n e.es_sfs) (int_of_n e.es_id) (int_of_n e.es_flags)
+    (int_of_n e.es_dep) (hex_of_bytes e.es_url) (int_of_n e.es_ocr) (desc_str e.es_dcd) (descs_str e.es_children)
+    (hex_of_bytes e.es_unknown)
+
+let esds_body_obs (body : BinNums.coq_N list) : string =
+  match decode_esds_body body with
+  | Ok (vf, e) ->
+    let dc = match es_dec_config e with Some d -> hex_of_bytes d | None -> "nil" in
+    Printf.sprintf "ok/%d/%s/%s/%s" (int_of_n vf) (es_str e) (hex_of_bytes (encode_esds vf e)) dc
+  | OutOfFuel -> "fuel"
+  | _ -> "err"
 
 let () =
   iter_lines (fun line ->
@@ -202,4 +230,37 @@ let () =
         if enc_ok && m = obs then Printf.printf "OK %s\n" id
         else if not enc_ok then Printf.printf "MISMATCH %s adts-stream-encode\n" id
         else Printf.printf "MISMATCH %s adts-stream-decode model=%s\n" id m
+      | ["DE"; id; hex; obs] ->
+        let m = match decode_es_descriptor (bytes_of_hex hex) with
+          | (Ok e, s) -> Printf.sprintf "ok/%s/%d/%d/%s" (es_str e) (int_of_n s.s_pos) (if s.s_err then 1 else 0)
+                           (hex_of_bytes (encode_es e))
+          | (OutOfFuel, _) -> "fuel"
+          | _ -> "err" in
+        if m = obs then Printf.printf "OK %s\n" id
+        else Printf.printf "MISMATCH %s DecodeESDescriptor model=%s\n" id m
+      | ["DG"; id; maxnr; hex; obs] ->
+        let m = match decode_descriptor (z_of_int (int_of_string maxnr)) (bytes_of_hex hex) with
+          | (Ok d, s) -> Printf.sprintf "ok/%s/%d/%d/%s" (desc_str d) (int_of_n s.s_pos) (if s.s_err then 1 else 0)
+                           (hex_of_bytes (encode_desc d))
+          | (OutOfFuel, _) -> "fuel"
+          | _ -> "err" in
+        if m = obs then Printf.printf "OK %s\n" id
+        else Printf.printf "MISMATCH %s DecodeDescriptor model=%s\n" id m
+      | ["EB"; id; hex; obs; obs_sr] ->
+        let data = bytes_of_hex hex in
+        let m = match decode_box_header data with
+          | EUnmodelled -> "skip"
+          | EErr -> "err"
+          | EOk (((name, _), body), _) -> if list_eqb name fourcc_esds then esds_body_obs body else "skip" in
+        let m_sr = match decode_box_header_sr (data, n_of_int 0) with
+          | EUnmodelled -> "skip"
+          | EErr -> "err"
+          | EOk ((name, size), (rest, _)) ->
+            if not (list_eqb name fourcc_esds) then "skip"
+            else if L.length rest + 8 < int_of_n size then "err"
+            else esds_body_obs rest in
+        if (m = "skip" || m = obs) && (m_sr = "skip" || m_sr = obs_sr) then
+          Printf.printf "%s %s\n" (if m = "skip" && m_sr = "skip" then "SKIP" else "OK") id
+        else if not (m = "skip" || m = obs) then Printf.printf "MISMATCH %s DecodeBox(esds) model=%s\n" id m
+        else Printf.printf "MISMATCH %s DecodeBoxSR(esds) model=%s\n" id m_sr
       | _ -> Printf.printf "BADLINE %s\n" line)
